@@ -95,7 +95,9 @@ class IdRules:
             # index of the freed flag = the ID this object holds (read before the heartbeat was dropped)
             idx = free['obj'][2]
             derefs = [e for e in p.events if e['kind'] == 'call' and e.get('obj') == self.id_obj() and e.get('name') in ('operator*', 'get', 'operator->')]
-            good = bool(derefs) and derefs[0]['seq'] < expire['seq'] and any(repr(d['result']) in repr(idx) or show(d['result']) in show(idx) for d in derefs)
+            reads = [e for e in p.events if e['kind'] == 'read' and e['path'][0] == 'deref' and any(show(d['result']) in show(e['path']) for d in derefs)]
+            good = bool(derefs) and derefs[0]['seq'] < expire['seq'] and any(repr(d['result']) in repr(idx) or show(d['result']) in show(idx) for d in derefs) \
+                and bool(reads) and reads[0]['seq'] < expire['seq']
             sink.emit('C05.WHO', 'ok' if good else 'violated', '~HeartBeater frees the flag of its own ID', '%s:%s' % (f['file'], free['line']),
                       'index %s' % show(idx))
         # claim side: acquire
@@ -127,6 +129,15 @@ class IdRules:
                 (r[3][0] == ('lv', self.id_obj(), None) or show(r[3][0]) == 'this->' + self.idf)
             self.sink.emit('C15.LIFE', 'ok' if good else 'violated', 'GetHeartBeat returns a weak_ptr to the heartbeat itself', '%s:%s' % (gh['file'], gh['line']),
                            'returns %s' % show(r))
+        # nobody in the library turns a heartbeat into an owning pointer (that would keep it unexpired after the thread exit)
+        for g in self.fx.functions.values():
+            if not g['name'].startswith(NS):
+                continue
+            for p in self.eng.paths(g)['paths']:
+                for e in p.events:
+                    if e['kind'] == 'call' and e.get('name') == 'lock' and 'weak_ptr<unsigned long' in (e.get('record') or ''):
+                        self.sink.bad('C15.LIFE', '%s locks a heartbeat' % sname(g['name']), '%s:%s' % (g['file'], e['line']),
+                                      'weak_ptr::lock() creates a second owner of the control block: if the thread exits meanwhile its heartbeat does not expire although its ID is released')
         copyable = [m for m in self.hb_rec['methods'] if m['kind'] in ('copy_ctor', 'move_ctor', 'copy_assign', 'move_assign') and not m['deleted']]
         self.sink.emit('C15.LIFE', 'ok' if not copyable else 'violated', 'HeartBeater is neither copyable nor movable', '%s:%s' % (self.hb_rec['file'], self.hb_rec['line']),
                        'no second owner of the control block can exist' if not copyable else 'non-deleted: %s' % [m['kind'] for m in copyable])
@@ -313,6 +324,12 @@ class IdRules:
             sets = [e for e in p.events if e['kind'] == 'call' and e.get('callee') == self.setid['key']]
             if fe:
                 sink.emit('C14.PROBE', 'ok' if sets else 'violated', 'claim loop exits only with a claimed ID', '%s:%s' % (f['file'], p.ret_line), '')
+        # a claimer must not block on one particular slot: any holder's exit has to be noticed
+        for p in res['paths']:
+            for e in self.flag_events(p):
+                if e['op'] == 'wait':
+                    sink.bad('C14.PROBE', 'claim loop blocks on a single reservation flag', '%s:%s' % (f['file'], e['line']),
+                             'atomic wait on flag %s: the thread is woken only by the holder of that slot, although another ID may have been freed' % self.norm(e['obj'][2]))
         # loops re-read the flag
         bm = self.eng.block_map(f)
         for h in self.eng.loop_headers(f):
